@@ -17,7 +17,7 @@
 
   MODELLED, NOT VERIFIED: serde and serde_derive (1.0.229).  Not modelled at all (the model
   answers `CRes.unmodelled`, printed `unmodelled` by the driver; the streams never go there):
-  the `f64 as f32` coercion of serde's `f32` visitor on a `Content::F64`, `Content`-buffered
+  `Content`-buffered
   types nested inside another `Content` buffer, and structs with `skip_serializing_if` fields
   (`structS`) behind a `Content` buffer or as variants of a non-externally-tagged enum.
 
@@ -27,6 +27,7 @@
 import Minicbor.Prelude
 import Minicbor.Utf8
 import Minicbor.Float
+import Minicbor.Narrow
 import Minicbor.Encoder
 import Minicbor.Decoder
 import Minicbor.Skip
@@ -616,7 +617,7 @@ def fromC : SType → Bool → Content → CRes SVal
     | _ => .fail
   | .f32, _, c => match c with
     | .f32 b => pure (.f32 b)
-    | .f64 _ => .unmodelled                     -- `f64 as f32`
+    | .f64 b => pure (.f32 (f64ToF32 b))        -- serde's `f32` visitor: `v as f32` (round to nearest even; Narrow.lean)
     | .int _ v => pure (.f32 (intToF32 v))      -- the float visitors accept integers (`v as f32`)
     | _ => .fail
   | .f64, _, c => match c with
